@@ -439,6 +439,38 @@ def _init(ctx: Ctx) -> None:
                         f"{_sh_poly(hi_)} may be above the computed one")
         except Unsupported as u:
             problems.append(f"cannot normalise the bounds: {u}")
+    # ---- the storage type of the matrices is sized by the UPPER bound
+    dcalls = [c for c in ast.walk(init.node) if isinstance(c, ast.Call)
+              and isinstance(c.func, ast.Name)
+              and c.func.id == "int_range_to_dtype"]
+    d_ok = False
+    d_why = "no int_range_to_dtype(...) call sizes the matrices"
+    d_node: ast.AST = init.node
+    if len(dcalls) == 1 and isinstance(ubf, Poly):
+        d_node = dcalls[0]
+        kw = {k.arg: k.value for k in dcalls[0].keywords}
+        pos = list(dcalls[0].args)
+        mn_e = kw.get("min_value", pos[0] if pos else None)
+        mx_e = kw.get("max_value", pos[1] if len(pos) > 1 else None)
+        try:
+            mxv = ev.num(out, mx_e) if mx_e is not None else None
+            mnv = ev.num(out, mn_e) if mn_e is not None else None
+        except Unsupported:
+            mxv = mnv = None
+        if mxv is None or mnv is None:
+            d_why = "cannot normalise the range handed to int_range_to_dtype"
+        else:
+            d_ok = mxv == ubf and mnv.const_value() is not None and \
+                mnv.const_value() <= 0
+            d_why = (f"the matrices are stored with the integer type of "
+                     f"[{_sh_poly(mnv)}, {_sh_poly(mxv)}]" + (
+                         " = [0, upper bound]: every entry that can "
+                         "contribute to an objective value fits"
+                         if d_ok else " - not [0, the stored upper bound "
+                         f"{_sh_poly(ubf)}]: entries above that range wrap "
+                         "around when the matrices are converted"))
+    ctx.ob("D9.3", init, d_node, d_ok, d_why,
+           construct="storage type covers the upper bound")
     ctx.ob("D9.3", init, node, not problems,
            "constructor computes (lb, ub) = trivial_bounds(distances, "
            "flows), only tightens them (stored lb >= computed lb, stored ub "
